@@ -339,6 +339,20 @@ func genC13(e *emitter, tier string, seed uint64) {
 		e.note("asm.eligible-shape")
 		e.run("C13.asm", hex.EncodeToString(s))
 	}
+	// PUSHDATA2 / PUSHDATA4 headers whose *upper* length bytes are set, followed by 65536+ real bytes: a tokeniser that
+	// assembles the length with a wrong shift reads a much shorter push and accepts what is a truncated push
+	for _, hdr := range [][]byte{{0x4e, 0x00, 0x00, 0x00, 0x01}, {0x4e, 0x01, 0x00, 0x00, 0x01}, {0x4e, 0x00, 0x00, 0x01, 0x00}, {0x4e, 0x00, 0x00, 0x02, 0x00},
+		{0x4e, 0x10, 0x00, 0x01, 0x00}, {0x4d, 0x00, 0x01}, {0x4d, 0x00, 0xff}, {0x4e, 0x00, 0x01, 0x00, 0x00}} {
+		for _, follow := range []int{65536, 65552, 70000, 131073} {
+			if quick && follow > 70000 {
+				continue
+			}
+			s := append(append([]byte{}, hdr...), r.bytes(follow)...)
+			e.run("C13.tok", hex.EncodeToString(s))
+			e.run("C13.tok", hex.EncodeToString(append([]byte{0x51}, s...)))
+			e.note("tok.upper-length-bytes")
+		}
+	}
 	// ASM of non-data scripts that merely *look* like data at the part level: a first push whose payload starts with
 	// OP_RETURN's byte, or OP_0 / a push starting 00 followed by such a push (the data test is on the script's bytes)
 	for k := 0; k < 24; k++ {
